@@ -700,9 +700,14 @@ def is_valid(formula: z3.BoolRef, timeout: int = 500) -> ThreeValuedTruth:
         else:
             return ThreeValuedTruth.unknown()
 
+    try:
+        eval_result = evaluate_z3_expression(formula)
+    except ZeroDivisionError:
+        # Division by zero is unspecified in SMT-LIB, let Z3 decide.
+        return solve_using_z3()
+
     return (
-        evaluate_z3_expression(formula)
-        .map(process_eval_result)
+        eval_result.map(process_eval_result)
         .lash(lambda _: Success(solve_using_z3()))
         .unwrap()
     )
